@@ -772,8 +772,14 @@ func (h *c17) oracle(pre, post []*c17obs, signer int, msgs []*cmsg, res string, 
 			continue
 		}
 		what := fmt.Sprintf("custody policy of account %d (custody enabled, key %s) changed without the key preimage: [%s] -> [%s] by: %s", a, h.keyTokOf(pre[a].set.Key), pre[a].policy, post[a].policy, line)
+		// which of the transaction's SETTINGS messages can have changed the policy (sends, votes and plain bank messages
+		// cannot): when they are all disable / drop, the change is the recorded finding that these two are not key-checked
 		onlyDisableDrop := true
 		for _, m := range msgs {
+			switch m.kind {
+			case "send", "approve", "decline", "confirm", "banksend", "multisend":
+				continue
+			}
 			if m.kind != "disable" && m.kind != "drop" {
 				onlyDisableDrop = false
 			}
